@@ -1,4 +1,4 @@
-"""Files that change while a command runs (a live log, a rotated file): `live_edit(path, new_content)` rewrites `path` at the moment the
+"""Files that change or vanish while a command runs (a live log, a rotated file): `live_edit(path, new_content)` rewrites `path` at the moment the
 code under test first opens it for reading — i.e. AFTER whatever the command learnt about it while collecting files (stat, size, order).
 Works on `io.open` / `builtins.open` (pathlib's `Path.open` goes through `io.open`), so it does not depend on any name inside replicat."""
 import builtins
@@ -21,10 +21,13 @@ def live_edit(path, new_content):
                 same = False
             if same:
                 state['done'] = True
-                st = os.stat(target)
-                with real_open(target, 'wb') as f:
-                    f.write(new_content)
-                os.utime(target, ns=(st.st_atime_ns, st.st_mtime_ns))
+                if new_content is None:
+                    os.unlink(target)            # the file vanishes (another process removed it): the open below fails as it would
+                else:
+                    st = os.stat(target)
+                    with real_open(target, 'wb') as f:
+                        f.write(new_content)
+                    os.utime(target, ns=(st.st_atime_ns, st.st_mtime_ns))
         return real_open(file, mode, *a, **kw)
 
     io.open = opener
